@@ -214,6 +214,14 @@ def r22_update_alignment(facts):
             if var_of(src) == params and chain:
                 travs.append({"i": si, "chain": chain, "orient": _orientation(chain), "node": e})
         c.count("traversals of the parameter list", len(travs))
+        # a traversal of the parameters selects element by element (filter); an adaptor that selects by POSITION stops at, or skips
+        # up to, the first parameter that fails its test: the parameters after it are treated differently although nothing about them differs
+        POSITIONAL = (IT + "take_while", IT + "skip_while", IT + "take", IT + "skip", IT + "step_by", IT + "map_while")
+        for t in travs:
+            posn = [cal for cal, _ in t["chain"] if cal in POSITIONAL]
+            if posn:
+                c.bad("positional:%s#%d" % (u["def"], t["i"]), loc(u, t["node"]), "a traversal of the parameter list uses `%s`: it selects by position, so a parameter after the first one that fails the test "
+                      "(a frozen parameter in the middle of the list) is not updated although it holds a gradient" % posn[0].rsplit("::", 1)[-1])
         if not vecs:
             c.ok("update:%s" % u["def"], loc(u, root), "no cross-traversal buffers: nothing to align", nontrivial=False)
             continue
@@ -1195,3 +1203,62 @@ def r52_model_update_delegates(facts):
         else:
             c.ok(inst, where, "parameters() hands out every array field of the layer once (%s)" % ", ".join(got))
     return c
+
+
+# ------------------------------------------------------------------ R53
+
+def r53_replace_gradient_clears(facts):
+    """GRADIENT-TAKE: the accessor the optimizer uses to take a gradient (`replace_gradient`) leaves the slot EMPTY on every path: a gradient that is only copied out is added to again by the next pass"""
+    c = Ctx("R53", facts, "replace_gradient empties the gradient slot")
+    fns = [b for b in facts.fns() if b.get("impl_self") == ARRAY and b.get("impl_trait_def") is None and b.get("name") == "replace_gradient" and b.get("thir")]
+    c.floor("Array::replace_gradient", len(fns), 1)
+    for b in fns:
+        where = "%s:%d" % (rel(b["file"]), b["sp"][0])
+        sv = self_var(facts, b)
+        clears = []
+        conditional = False
+        for n, ctx in F.walk_ctx(facts.root(b)):
+            if n.get("k") != "Call" or not n.get("args"):
+                continue
+            cn = callee(n) or ""
+            tail = cn.rsplit("::", 1)[-1]
+            touches_slot = any(x.get("k") == "Field" and x.get("adt") == ARRAY and "RefCell" in (x.get("ty") or "") + (strip(x).get("ty") or "") or
+                               (x.get("k") == "Field" and x.get("name") == "gradient" and var_of(x["e"]) == sv) for x in walk(n["args"][0]))
+            if not touches_slot:
+                # through an accessor that hands out the slot mutably (`self.gradient_mut().take()`)
+                touches_slot = any(x.get("k") == "Call" and (x.get("callee") or {}).get("resolved_local") and "RefMut<" in (x.get("ty") or "") and ARRAY in (x.get("ty") or "")
+                                   for x in walk(n["args"][0]))
+            if not touches_slot:
+                continue
+            is_clear = False
+            if cn.startswith("core::cell::RefCell::<T>::") and tail in ("replace", "take", "swap") and (tail == "take" or (len(n["args"]) > 1 and _is_none_expr(n["args"][1]))):
+                is_clear = True
+            if cn.startswith("core::option::Option::<T>::") and tail in ("take",):
+                is_clear = True
+            if cn in ("core::mem::take",) or (cn == "core::mem::replace" and len(n["args"]) > 1 and _is_none_expr(n["args"][1])):
+                is_clear = True
+            if is_clear:
+                clears.append(n)
+                if any(len(fr) >= 3 and fr[0] in ("if", "arm", "guard", "logic") and not (fr[0] == "arm" and str(fr[1].get("source", "")).startswith("ForLoopDesugar")) for fr in ctx):
+                    conditional = True
+        # an assignment `*slot = None`
+        for n in walk(facts.root(b)):
+            if n.get("k") == "Assign" and _is_none_expr(n["r"]) and any(x.get("k") == "Field" and x.get("name") == "gradient" for x in walk(n["l"])):
+                clears.append(n)
+        inst = "take:%s" % b["def"]
+        delegates = any(x.get("k") == "Call" and (x.get("callee") or {}).get("resolved_local") and "Ref<" not in (x.get("ty") or "") and "RefMut<" not in (x.get("ty") or "")
+                        for x in walk(facts.root(b)))
+        if not clears and delegates:
+            c.unk(inst, where, "replace_gradient delegates to another crate-local function: whether the slot is emptied is not read")
+        elif not clears:
+            c.bad(inst, where, "replace_gradient never empties the gradient slot (it only reads / copies it): the optimizer's step leaves every gradient in place, and the next pass adds to it")
+        elif conditional:
+            c.unk(inst, loc(b, clears[0]), "the slot is emptied under a condition")
+        else:
+            c.ok(inst, loc(b, clears[0]), "the gradient slot is emptied (replace / take with None) unconditionally")
+    return c
+
+
+def _is_none_expr(e):
+    e = strip(e)
+    return isinstance(e, dict) and e.get("k") == "Adt" and e.get("variant") == "None"
